@@ -51,6 +51,12 @@ def depth(tier):
     return 4
 
 
+def extra_runs(tier):
+    """a second, small history tree with TWO labels (cross-label effects of the shrink filters): depth 5 over 8 symbols"""
+    syms = progs.pick(progs.XFER, 'beq8', 'call') + progs.pick(progs.CODE_C, 'addi8') + progs.pick(progs.VAR, 'li1') + progs.pick(progs.ALIGN, 'al4') + [progs.DEF]
+    return [(progs.instantiate(syms, ['A', 'B']), 5)]
+
+
 DEEP = 5       # thorough: additionally all closed programs of <= 5 lines over the quick alphabet
 
 
